@@ -12,7 +12,7 @@ def gen_scenario(rng, max_threads):
     for _ in range(nq):
         lines.append('queue')
     for _ in range(rng.range(3, 14)):
-        c = rng.weighted([('par', 30), ('async', 20 if nq else 0), ('waitpar', 18), ('waitq', 12 if nq else 0), ('pfor', 10), ('sleep', 5)])
+        c = rng.weighted([('par', 30), ('async', 20 if nq else 0), ('waitpar', 18), ('waitq', 12 if nq else 0), ('pfor', 10), ('sleep', 5), ('single', 6)])
         if c == 'par':
             lines.append('par %d' % rng.range(1, 12))
         elif c == 'async':
@@ -26,6 +26,8 @@ def gen_scenario(rng, max_threads):
             lines.append('pfor %d %d%s' % (b, e, (' %d' % rng.range(1, 9)) if rng.chance(1, 3) else ''))
         elif c == 'sleep':
             lines.append('sleep %d' % rng.range(10, 400))
+        elif c == 'single':
+            lines.append('single %d' % rng.below(2))       # also with work in flight
     if rng.chance(2, 3):
         lines.append('waitpar')
         for q in range(1, nq + 1):
@@ -39,6 +41,7 @@ CORPUS = [
     ('empty_range', ['seed 1 0', 'disp 2', 'pfor 5 5', 'pfor 0 1', 'del']),
     ('shutdown_pending', ['seed 9 500', 'disp 3', 'queue', 'par 40', 'async 1 10', 'del']),
     ('single_thread_mode', ['seed 2 0', 'disp 2', 'single 1', 'par 5', 'waitpar', 'single 0', 'par 5', 'waitpar', 'del']),
+    ('single_mode_with_work_in_flight', ['seed 4 400', 'disp 2', 'par 12', 'single 1', 'waitpar', 'par 3', 'single 0', 'par 9', 'single 1', 'pfor 0 9', 'waitpar', 'del']),
 ]
 
 
